@@ -9,14 +9,17 @@ From QV Require Import Common.Prelude Engine.Model Engine.Core Engine.CoreSpec E
 Open Scope Z_scope.
 
 (** a result that is not a panic and not a deadlock *)
-Definition okres {A} (r : res A) (P : A -> Prop) : Prop :=
-  match r with Ok a => P a | OutOfFuel => True | _ => False end.
-Lemma okres_bind : forall {A B} (r : res A) (k : A -> res B) (P : A -> Prop) (Q : B -> Prop),
-  okres r P -> (forall a, P a -> okres (k a) Q) ->
-  okres (match r with Ok x => k x | OutOfFuel => OutOfFuel | Panic c => Panic c | Stuck => Stuck end) Q.
-Proof. intros A B r k P Q H Hk. destruct r; cbn in *; auto; contradiction. Qed.
-Lemma okres_weaken : forall {A} (r : res A) (P Q : A -> Prop), okres r P -> (forall a, P a -> Q a) -> okres r Q.
-Proof. intros A r P Q H HPQ. destruct r; cbn in *; auto. Qed.
+(** [G]: the assumptions under which a panic is excluded (the readable inputs are set, the
+    requested node is declared); without them the same statements still say what a COMPLETED
+    request leaves *)
+Definition okres {A} (G : Prop) (r : res A) (P : A -> Prop) : Prop :=
+  match r with Ok a => P a | OutOfFuel => True | _ => ~ G end.
+Lemma okres_bind : forall {A B} G (r : res A) (k : A -> res B) (P : A -> Prop) (Q : B -> Prop),
+  okres G r P -> (forall a, P a -> okres G (k a) Q) ->
+  okres G (match r with Ok x => k x | OutOfFuel => OutOfFuel | Panic c => Panic c | Stuck => Stuck end) Q.
+Proof. intros A B G r k P Q H Hk. destruct r; cbn in *; auto. Qed.
+Lemma okres_weaken : forall {A} G (r : res A) (P Q : A -> Prop), okres G r P -> (forall a, P a -> Q a) -> okres G r Q.
+Proof. intros A G r P Q H HPQ. destruct r; cbn in *; auto. Qed.
 
 Definition stored (s : state) (n : node) : Prop := get_info s n <> None.
 Definition Mon (s s' : state) : Prop := forall m, stored s m -> stored s' m.
@@ -231,7 +234,8 @@ Proof. intros s s' e [x|] HM H; cbn in *; [eapply FrS_mon; eauto|exact I]. Qed.
 (** * progress *)
 Section Fixed.
 Variable inp : inputs.
-Hypothesis Hcov : forall n e d, alookup p n = Some e -> In d (expr_reads e) -> nkind d = KInput ->
+Variable G : Prop.
+Hypothesis Hcov : G -> forall n e d, alookup p n = Some e -> In d (expr_reads e) -> nkind d = KInput ->
   input_get inp (nidx d) <> None.
 
 Definition Askable (s : state) (n : node) : Prop :=
@@ -247,11 +251,11 @@ Definition CallerOk (c : caller) (n : node) : Prop :=
   | _ => True
   end.
 
-Lemma read_askable : forall s b e d, SInvM inp s -> alookup p b = Some e -> In d (expr_reads e) -> Askable s d.
+Lemma read_askable : forall s b e d, SInvM inp s -> alookup p b = Some e -> In d (expr_reads e) -> G -> Askable s d.
 Proof.
-  intros s b e d HS He Hd. destruct (Htargets b e d He Hd) as [K|K]; [|right; right; exact K].
+  intros s b e d HS He Hd g. destruct (Htargets b e d He Hd) as [K|K]; [|right; right; exact K].
   destruct (nkind d) eqn:Kd; try discriminate.
-  - left. rewrite (input_node_eta d Kd). apply (sk_inputs _ _ HS). eapply Hcov; eauto.
+  - left. rewrite (input_node_eta d Kd). apply (sk_inputs _ _ HS). eapply (Hcov g); eauto.
   - right. left. exact Kd.
 Qed.
 Lemma read_caller_ok : forall b e d rv pd prev, alookup p b = Some e -> In d (expr_reads e) -> CallerOk (CQuery b rv pd prev) d.
@@ -266,27 +270,27 @@ Definition QOk (e : expr) (fr : option frame) (n : node) (s : state) (r : qres) 
   SInvM inp s' /\ Mon s s' /\ stored s' n /\ (ofr s e fr -> In n (expr_reads e) -> ofr s' e fr').
 
 Definition prog_query (f : nat) : Prop :=
-  forall stk c fr n s e, SInvM inp s -> Askable s n -> StkOk rk stk n -> (is_cq c = false -> stk = []) ->
-    CallerOk c n -> okres (mquery f stk c fr n s) (QOk e fr n s).
+  forall stk c fr n s e, SInvM inp s -> (G -> Askable s n) -> StkOk rk stk n -> (is_cq c = false -> stk = []) ->
+    CallerOk c n -> okres G (mquery f stk c fr n s) (QOk e fr n s).
 Definition prog_execute (f : nat) : Prop :=
   forall stk c n rc fr0 s, SInvM inp s -> StkOk rk stk n -> (is_cq c = false -> stk = []) ->
-    (nkind n = KExternal \/ (is_mexec_kind (nkind n) = true /\ alookup p n <> None)) ->
+    (G -> nkind n = KExternal \/ (is_mexec_kind (nkind n) = true /\ alookup p n <> None)) ->
     fr_callees fr0 = [] -> fr_order fr0 = [] -> fr_unordered fr0 = false -> (forall F, In F (fr_tfc fr0) -> stored s F) ->
-    okres (mexecute f stk c n rc fr0 s) (fun '(ms, s') => SInvM inp s' /\ Mon s s' /\ stored s' n).
+    okres G (mexecute f stk c n rc fr0 s) (fun '(ms, s') => SInvM inp s' /\ Mon s s' /\ stored s' n).
 Definition prog_eval (f : nat) : Prop :=
   forall stk b rv pd prev e0 e fr s, SInvM inp s -> alookup p b = Some e0 ->
     (forall d, In d (expr_reads e) -> In d (expr_reads e0)) -> StkOk rk stk b ->
     FrS s e0 fr ->
-    okres (meval f (b :: stk) (CQuery b rv pd prev) e fr s)
+    okres G (meval f (b :: stk) (CQuery b rv pd prev) e fr s)
           (fun '(o, fr', ms, s') => SInvM inp s' /\ Mon s s' /\ FrS s' e0 fr').
 Definition prog_repair (f : nat) : Prop :=
   forall stk c n s, SInvM inp s -> stored s n -> StkOk rk stk n -> (is_cq c = false -> stk = []) ->
-    okres (mrepair f stk c n s) (fun '(ms, s') => SInvM inp s' /\ Mon s s' /\ stored s' n).
+    okres G (mrepair f stk c n s) (fun '(ms, s') => SInvM inp s' /\ Mon s s' /\ stored s' n).
 Definition prog_backward (f : nat) : Prop :=
   forall n s, SInvM inp s -> stored s n ->
-    okres (mbackward f [] n s) (fun s' => SInvM inp s' /\ Mon s s' /\ stored s' n).
+    okres G (mbackward f [] n s) (fun s' => SInvM inp s' /\ Mon s s' /\ stored s' n).
 
-Lemma propagate_np : forall f s w, okres (propagate f s w) (fun s' => s_nodes s' = s_nodes s /\ s_bwd s' = s_bwd s /\ s_ext s' = s_ext s).
+Lemma propagate_np : forall f s w, okres G (propagate f s w) (fun s' => s_nodes s' = s_nodes s /\ s_bwd s' = s_bwd s /\ s_ext s' = s_ext s).
 Proof.
   intros f s w. destruct (propagate f s w) as [s'| | |] eqn:E; cbn; auto.
   - pose proof (propagate_we _ _ _ _ E). apply propagate_same in E. tauto.
@@ -297,7 +301,7 @@ Proof.
     destruct w as [|x r]; [discriminate|]. destruct (nmem x (s_visited s)); [eapply IH; eauto|]. cbv zeta in E.
     destruct (mark_callers (set_visited s (x :: s_visited s)) x (callers_of (set_visited s (x :: s_visited s)) x) r) as [s2 w']. eapply IH; eauto.
 Qed.
-Lemma propagate_t_np : forall f s w, okres (propagate_t f s w) (fun s' => s_nodes s' = s_nodes s /\ s_bwd s' = s_bwd s /\ s_ext s' = s_ext s).
+Lemma propagate_t_np : forall f s w, okres G (propagate_t f s w) (fun s' => s_nodes s' = s_nodes s /\ s_bwd s' = s_bwd s /\ s_ext s' = s_ext s).
 Proof.
   intros f s w. destruct (propagate_t f s w) as [s'| | |] eqn:E; cbn; auto.
   - pose proof (propagate_t_we _ _ _ _ E). apply propagate_t_same in E. tauto.
@@ -350,22 +354,22 @@ Proof.
 Qed.
 
 Lemma prog_tfc : forall f, prog_query f -> forall ts s, SInvM inp s -> (forall t, In t ts -> stored s t) ->
-  okres (mtfc p f [] ts s) (fun s' => SInvM inp s' /\ Mon s s').
+  okres G (mtfc p f [] ts s) (fun s' => SInvM inp s' /\ Mon s s').
 Proof.
   intros f IHq. induction ts as [|t r IH]; intros s HS Ht; cbn [mtfc].
   - cbn. split; [exact HS|apply Mon_refl].
-  - pose proof (IHq [] CRepairFirewall None t s (EConst 0) HS (or_introl (Ht t (or_introl eq_refl))) (StkOk_nil rk t) (fun _ => eq_refl) I) as Q.
+  - pose proof (IHq [] CRepairFirewall None t s (EConst 0) HS (fun _ => or_introl (Ht t (or_introl eq_refl))) (StkOk_nil rk t) (fun _ => eq_refl) I) as Q.
     destruct (mquery f [] CRepairFirewall None t s) as [[[[o fr'] m'] s1]| | |]; cbn in Q |- *; auto.
     destruct Q as (HS1 & M1 & _).
     eapply okres_weaken; [apply IH; [exact HS1|intros x Hx; apply M1; apply Ht; right; exact Hx]|].
     intros s' [A B]. split; [exact A|eapply Mon_trans; eauto].
 Qed.
 Lemma prog_bp : forall f, prog_query f -> forall ts s, SInvM inp s -> (forall t, In t ts -> stored s t) ->
-  okres (mbp p f [] ts s) (fun s' => SInvM inp s' /\ Mon s s').
+  okres G (mbp p f [] ts s) (fun s' => SInvM inp s' /\ Mon s s').
 Proof.
   intros f IHq. induction ts as [|t r IH]; intros s HS Ht; cbn [mbp].
   - cbn. split; [exact HS|apply Mon_refl].
-  - pose proof (IHq [] CBPP None t s (EConst 0) HS (or_introl (Ht t (or_introl eq_refl))) (StkOk_nil rk t) (fun _ => eq_refl) I) as Q.
+  - pose proof (IHq [] CBPP None t s (EConst 0) HS (fun _ => or_introl (Ht t (or_introl eq_refl))) (StkOk_nil rk t) (fun _ => eq_refl) I) as Q.
     destruct (mquery f [] CBPP None t s) as [[[[o fr'] m'] s1]| | |]; cbn in Q |- *; auto.
     destruct Q as (HS1 & M1 & _).
     eapply okres_weaken; [apply IH; [exact HS1|intros x Hx; apply M1; apply Ht; right; exact Hx]|].
@@ -375,7 +379,7 @@ Qed.
 Lemma prog_walk : forall f n stk pd i e, prog_query f -> alookup p n = Some e -> StkOk rk stk n ->
   forall cs rtfc cleaned fr ms s, SInvM inp s ->
     (forall x, In x cs -> In x (expr_reads e) /\ stored s x) -> FrS s e fr ->
-    okres (mwalk p f n stk pd i cs rtfc cleaned fr ms s)
+    okres G (mwalk p f n stk pd i cs rtfc cleaned fr ms s)
           (fun '(d, fr', ms', s1) => SInvM inp s1 /\ Mon s s1 /\ FrS s1 e fr').
 Proof.
   intros f n stk pd i e IHq He Hstk. induction cs as [|cal r IH]; intros rtfc cleaned fr ms s HS Hcs Hfr; cbn [mwalk].
@@ -386,7 +390,7 @@ Proof.
     destruct (alookup (i_obs i) cal) as [[ov otfc]|] eqn:Eo.
     2:{ cbn. split; [exact HS|]. split; [apply Mon_refl|exact Hfr]. }
     assert (Hstep : forall s0 fr0, SInvM inp s0 -> Mon s s0 -> FrS s0 e fr0 -> forall m1 rt cl,
-              okres (match get_info s0 cal, Some (ov, otfc) with
+              okres G (match get_info s0 cal, Some (ov, otfc) with
                      | Some ci, Some (ov, otfc) =>
                          if negb (i_value ci =? ov) then Ok (DRecompute, fr0, ms ++ m1, s0)
                          else mwalk p f n stk pd i r (rt ci) cl fr0 (ms ++ m1) s0
@@ -402,7 +406,7 @@ Proof.
     destruct (kind_eqb (nkind cal) KInput).
     + apply (Hstep s fr HS (Mon_refl s) Hfr [] (fun ci => rtfc || (negb (kind_eqb (nkind cal) KFirewall) && negb (nset_eqb (i_tfc ci) otfc)))).
     + match goal with |- context [query_for p None f ?a ?b ?c ?d0 ?e0] =>
-        pose proof (IHq a b c d0 e0 e HS (or_introl Hcst)
+        pose proof (IHq a b c d0 e0 e HS (fun _ => or_introl Hcst)
                       (StkOk_lower rk _ _ _ Hstk (Hrk _ _ _ He Hce)) (fun K => ltac:(discriminate K))
                       (read_caller_ok n e cal _ _ _ He Hce)) as Q;
         destruct (query_for p None f a b c d0 e0) as [[[[o fr1] m1] s']| | |] end; cbn in Q |- *; auto.
@@ -432,16 +436,16 @@ Proof.
         intros Hfr Hn. eapply hit_frame; eauto. }
       pose proof (fast_path_slow _ _ _ _ _ _ Ef) as Hsp.
       (* the TFC repair *)
-      assert (T : okres (mq_tfc p f stk c' sp n s) (fun s1 => SInvM inp s1 /\ Mon s s1)).
-      { assert (Hdef : okres (Ok s) (fun s1 => SInvM inp s1 /\ Mon s s1)) by (cbn; split; [exact HS|apply Mon_refl]).
+      assert (T : okres G (mq_tfc p f stk c' sp n s) (fun s1 => SInvM inp s1 /\ Mon s s1)).
+      { assert (Hdef : okres G (Ok s) (fun s1 => SInvM inp s1 /\ Mon s s1)) by (cbn; split; [exact HS|apply Mon_refl]).
         unfold mq_tfc. destruct c' as [|b rv pd prev| |] eqn:Ec'; try exact Hdef;
           (destruct sp; try exact Hdef; destruct (get_info s n) as [i|] eqn:Ei; try exact Hdef;
            rewrite (Hroot' eq_refl); apply (prog_tfc f IHq); [exact HS|intros t Ht; eapply (sk_tfc _ _ HS); eauto]). }
       eapply okres_bind; [exact T|]. intros s1 [HS1 M1]. cbv beta.
-      assert (Hask1 : Askable s1 n) by (eapply Askable_mon; eauto).
+      assert (Hask1 : G -> Askable s1 n) by (intro g; eapply Askable_mon; eauto).
       (* process *)
-      assert (P : okres (mq_process p f stk c' sp n s1) (fun '(marks, s2) => SInvM inp s2 /\ Mon s1 s2 /\ stored s2 n)).
-      { assert (Hgen : okres (match get_info s1 n with
+      assert (P : okres G (mq_process p f stk c' sp n s1) (fun '(marks, s2) => SInvM inp s2 /\ Mon s1 s2 /\ stored s2 n)).
+      { assert (Hgen : okres G (match get_info s1 n with
                               | Some i => if (i_verified i =? s_ts s1)%N then Ok ([], s1) else mrepair f stk c' n s1
                               | None => mexecute f stk c' n false empty_frame s1 end)
                              (fun '(marks, s2) => SInvM inp s2 /\ Mon s1 s2 /\ stored s2 n)).
@@ -450,7 +454,7 @@ Proof.
             + cbn. split; [exact HS1|]. split; [apply Mon_refl|unfold stored; congruence].
             + apply IHr; auto. unfold stored. congruence.
           - apply IHx; auto; try reflexivity; [|intros F []].
-            destruct Hask1 as [K|K]; [unfold stored in K; congruence|exact K]. }
+            intro g. destruct (Hask1 g) as [K|K]; [unfold stored in K; congruence|exact K]. }
         destruct sp; [exact Hgen|exact Hgen|].
         unfold mq_process. destruct (get_info s1 n) as [i|] eqn:Ei.
         - match goal with |- context [if ?b then _ else _] => destruct b end.
@@ -469,7 +473,7 @@ Proof.
       destruct (fast_path s2 c (fq_reg c fr n) n) as [[v|sp'] fr2'] eqn:Ef2.
       - cbn. split; [exact HS2|]. split; [exact M12|]. split; [exact Hst2|].
         intros Hfr Hn. apply ofr_mark_if. eapply hit_frame; eauto. eapply ofr_mon; eauto.
-      - pose proof (IHq stk c' (fq_reg c fr n) n s2 e HS2 (or_introl Hst2) Hstk Hroot' Hcal') as Q.
+      - pose proof (IHq stk c' (fq_reg c fr n) n s2 e HS2 (fun _ => or_introl Hst2) Hstk Hroot' Hcal') as Q.
         destruct (mquery f stk c' (fq_reg c fr n) n s2) as [[[[o3 fr3] m3] s3]| | |]; cbn in Q |- *; auto.
         destruct Q as (HS3 & M3 & Hst3 & Hf3).
         split; [exact HS3|]. split; [eapply Mon_trans; eauto|]. split; [exact Hst3|].
@@ -479,7 +483,7 @@ Proof.
     { red. intros stk c n rc fr0 s HS Hstk Hroot Hk F1 F2 F5 F3. rewrite execute_S. cbv zeta.
       set (s0 := set_log s (n :: s_log s)).
       assert (HS0 : SInvM inp s0) by (eapply SInvM_same; [| | |exact HS]; reflexivity).
-      assert (E : okres (match nkind n with
+      assert (E : okres G (match nkind n with
                          | KExternal => Ok (EVal (world_get s0 (nidx n)), fr0, [], s0)
                          | KInput => Panic 4
                          | _ => match body p n with
@@ -489,27 +493,25 @@ Proof.
                          end)
                         (fun '(out, fr1, marks, s1) => SInvM inp s1 /\ Mon s s1 /\ NewS s1 n fr1 /\
                                                        (forall F, In F (fr_tfc fr1) -> stored s1 F))).
-      { destruct Hk as [Kx|[Kk Kb]].
-        - rewrite Kx. cbn. split; [exact HS0|]. split; [intros m Hm; exact Hm|]. split; [left; auto|exact F3].
-        - unfold body. destruct (alookup p n) as [e|] eqn:He; [|congruence].
-          assert (Hfr : FrS s0 e fr0).
-          { split.
-            - intro K. rewrite F5 in K. discriminate.
-            - rewrite F1, F2. reflexivity.
-            - intros d Hd. rewrite F1 in Hd. destruct Hd.
-            - exact F3. }
-          pose proof (IHe stk n true (x_pedantic c) (fx_prev s n) e e fr0 s0 HS0 He (fun d Hd => Hd) Hstk Hfr) as Q.
-          destruct (nkind n) eqn:Kn; try discriminate;
-            (destruct (meval f (n :: stk) (CQuery n true (x_pedantic c) (fx_prev s n)) e fr0 s0) as [[[[out fr1] marks] s1]| | |];
+      { destruct (nkind n) eqn:Kn.
+        1: { cbn. intro g. destruct (Hk g) as [Kx|[Kk _]]; discriminate. }
+        4: { cbn. split; [exact HS0|]. split; [intros m Hm; exact Hm|]. split; [left; auto|exact F3]. }
+        all: unfold body; destruct (alookup p n) as [e|] eqn:He;
+          [|cbn; intro g; destruct (Hk g) as [Kx|[_ Kb]]; [discriminate|congruence]].
+        all: assert (Hfr : FrS s0 e fr0) by
+            (split; [intro K; rewrite F5 in K; discriminate|rewrite F1, F2; reflexivity
+                    |intros d Hd; rewrite F1 in Hd; destruct Hd|exact F3]).
+        all: pose proof (IHe stk n true (x_pedantic c) (fx_prev s n) e e fr0 s0 HS0 He (fun d Hd => Hd) Hstk Hfr) as Q.
+        all: destruct (meval f (n :: stk) (CQuery n true (x_pedantic c) (fx_prev s n)) e fr0 s0) as [[[[out fr1] marks] s1]| | |];
              cbn in Q |- *; auto; destruct Q as (A & B & C); split; [exact A|]; split; [exact B|]; split;
              [right; split; [rewrite Kn; reflexivity|]; exists e; split; [exact He|]; intros d Hd; rewrite (fs_order _ _ _ C) in Hd; apply (fs_keys _ _ _ C); exact Hd
-             |apply (fs_tfc _ _ _ C)]). }
+             |apply (fs_tfc _ _ _ C)]. }
       eapply okres_bind; [exact E|]. intros [[[out fr1] marks] s1] (HS1 & M1 & Hn1 & Ht1). cbv beta.
       set (fr2 := if nmem n marks then fr_mark_scc fr1 else fr1).
       assert (Hn2 : NewS s1 n fr2 /\ (forall F, In F (fr_tfc fr2) -> stored s1 F)) by (unfold fr2; destruct (nmem n marks); auto).
-      match goal with |- okres (match (if ?b then ?P1 else ?P2) with _ => _ end) _ =>
-        assert (Pp : okres (if b then P1 else P2) (fun s2 => s_nodes s2 = s_nodes s1 /\ s_bwd s2 = s_bwd s1 /\ s_ext s2 = s_ext s1)) end.
-      { repeat match goal with |- okres (if ?b then _ else _) _ => destruct b end;
+      match goal with |- okres G (match (if ?b then ?P1 else ?P2) with _ => _ end) _ =>
+        assert (Pp : okres G (if b then P1 else P2) (fun s2 => s_nodes s2 = s_nodes s1 /\ s_bwd s2 = s_bwd s1 /\ s_ext s2 = s_ext s1)) end.
+      { repeat match goal with |- okres G (if ?b then _ else _) _ => destruct b end;
           try apply propagate_np; try apply propagate_t_np. cbn. auto. }
       eapply okres_bind; [exact Pp|]. intros s2 (N1 & N2 & N3). cbv beta. cbn [okres].
       assert (HS2 : SInvM inp s2) by (eapply SInvM_same; eauto).
@@ -525,7 +527,7 @@ Proof.
     assert (PE : prog_eval (S f)).
     { assert (Hread : forall stk b rv pd prev e0 d fr s, SInvM inp s -> alookup p b = Some e0 -> In d (expr_reads e0) ->
                 StkOk rk stk b -> FrS s e0 fr ->
-                okres (mread p f (b :: stk) (CQuery b rv pd prev) d fr s)
+                okres G (mread p f (b :: stk) (CQuery b rv pd prev) d fr s)
                       (fun '(o, fr', ms, s') => SInvM inp s' /\ Mon s s' /\ FrS s' e0 fr')).
       { intros stk b rv pd prev e0 d fr s HS He Hd Hstk Hfr. unfold mread.
         pose proof (IHq (b :: stk) (CQuery b rv pd prev) (Some fr) d s e0 HS (read_askable s b e0 d HS He Hd)
@@ -538,7 +540,7 @@ Proof.
         destruct o as [[z|]|]; cbn; auto. }
       assert (Hbin : forall stk b rv pd prev e0 a c0 op fr s, SInvM inp s -> alookup p b = Some e0 ->
                 (forall d, In d (expr_reads a ++ expr_reads c0) -> In d (expr_reads e0)) -> StkOk rk stk b -> FrS s e0 fr ->
-                okres (mbin p f (b :: stk) (CQuery b rv pd prev) a c0 op fr s)
+                okres G (mbin p f (b :: stk) (CQuery b rv pd prev) a c0 op fr s)
                       (fun '(o, fr', ms, s') => SInvM inp s' /\ Mon s s' /\ FrS s' e0 fr')).
       { intros stk b rv pd prev e0 a c0 op fr s HS He Hsub Hstk Hfr. unfold mbin.
         eapply okres_bind; [apply (IHe stk b rv pd prev e0 a fr s HS He (fun d Hd => Hsub d (in_or_app _ _ _ (or_introl Hd))) Hstk Hfr)|].
@@ -547,7 +549,7 @@ Proof.
         intros [[[y fr2] m2] s2] (A2 & B2 & C2). destruct y; cbn; (split; [exact A2|]; split; [eapply Mon_trans; eauto|exact C2]). }
       assert (Hgrp : forall stk b rv pd prev e0 ns acc fr ms s, SInvM inp s -> alookup p b = Some e0 ->
                 (forall d, In d ns -> In d (expr_reads e0)) -> StkOk rk stk b -> FrS s e0 fr ->
-                okres (mgroup p f (b :: stk) (CQuery b rv pd prev) ns acc fr ms s)
+                okres G (mgroup p f (b :: stk) (CQuery b rv pd prev) ns acc fr ms s)
                       (fun '(o, fr', ms', s') => SInvM inp s' /\ Mon s s' /\ FrS s' e0 fr')).
       { intros stk b rv pd prev e0. induction ns as [|d r IHn]; intros acc fr ms s HS He Hsub Hstk Hfr; cbn [mgroup].
         - cbn. split; [exact HS|]. split; [apply Mon_refl|exact Hfr].
@@ -575,8 +577,8 @@ Proof.
       destruct (get_info s n) as [i|] eqn:Ei; [|congruence]. cbv zeta.
       assert (Hfin : forall d fr1 (marks : list node) s1, SInvM inp s1 -> Mon s s1 -> get_info s1 n = Some i ->
                 (forall F, In F (fr_tfc fr1) -> stored s1 F) ->
-                (d = DRecompute -> nkind n = KExternal \/ (is_mexec_kind (nkind n) = true /\ alookup p n <> None)) ->
-                okres (match d with
+                (d = DRecompute -> G -> nkind n = KExternal \/ (is_mexec_kind (nkind n) = true /\ alookup p n <> None)) ->
+                okres G (match d with
                        | DRecompute => let* (m2, s2) := mexecute f stk c n true (fr_clear (if nmem n marks then fr_mark_scc fr1 else fr1)) s1 in Ok (marks ++ m2, s2)
                        | DClean false cleaned => Ok (marks, clean_query s1 n cleaned None)
                        | DClean true cleaned => Ok (marks, clean_query s1 n cleaned (Some (new_tfc_of s1 i)))
@@ -605,7 +607,7 @@ Proof.
         pose proof (mmono_walk p f n stk _ i (proj1 (mmono_all p f)) _ _ _ _ _ _ _ _ _ _ Ew) as MW.
         assert (Ei1 : get_info s1 n = Some i) by (rewrite (mr_stk _ _ _ MW n (or_introl eq_refl)); exact Ei).
         apply (Hfin d fr1 marks s1 HS1 M1 Ei1 (fs_tfc _ _ _ Hf1)).
-        intros _. right. split; [exact Kk|congruence]. }
+        intros _ _. right. split; [exact Kk|congruence]. }
     assert (PB : prog_backward (S f)).
     { red. intros n s HS Hst. rewrite backward_S. cbv zeta.
       eapply okres_bind; [apply (prog_bp f IHq (proj_callers s n) s HS)|].
